@@ -162,6 +162,10 @@ func b2i(b bool) int {
 var reuseBuf = make([]byte, 0, 1<<16)
 
 func reused(in []byte) []byte {
+	if concMode {
+		// the shared buffer belongs to one caller; concurrent callers each own theirs
+		return append(make([]byte, 0, len(in)), in...)
+	}
 	if len(in) > cap(reuseBuf) {
 		reuseBuf = make([]byte, 0, 2*len(in))
 	}
@@ -268,6 +272,22 @@ func (s *Sink) Close() {
 		s.f.Close()
 		s.f = nil
 	}
+}
+
+// Intent writes the request about to be executed to <name>.intent.json (flushing the trace first, so
+// that everything recorded so far is on disk as well); IntentDone removes it.
+func (s *Sink) Intent(req Ev) {
+	if s.f != nil {
+		s.w.Flush()
+	}
+	b, _ := json.Marshal(req)
+	if err := os.WriteFile(filepath.Join(s.dir, s.name+".intent.json"), b, 0o644); err != nil {
+		fatal("%v", err)
+	}
+}
+
+func (s *Sink) IntentDone() {
+	os.Remove(filepath.Join(s.dir, s.name+".intent.json"))
 }
 
 func (s *Sink) Summary() {
